@@ -35,4 +35,6 @@ def text_class(s):
         f.append('blank')
     if '\\' in s:
         f.append('bs')
+    if s.lower() in ('null', 'true', 'false'):
+        f.append('kw')         # spelled like one of the bare default keywords
     return '+'.join(f) or 'plain'
